@@ -158,3 +158,36 @@ func Harness_C17_effect_order() {
 	verifAssert(sh == New_Shape_Circle(a) && sameObs(og, ow), "t_union_effects: constructor argument evaluated once")
 	verifCover("end")
 }
+
+func Harness_C17_unit_ifs() {
+	a, b := verifInt("a"), verifInt("b")
+	var got int
+	og := observe(func() { got = t_unit_ifs(a, b) })
+	ow := observe(func() {
+		if a > 0 {
+			emit("a pos")
+			if b > 0 {
+				emit("b pos")
+			}
+		} else {
+			emit("a nonpos")
+		}
+		emit("mid")
+		if a > 5 {
+			if b > 5 {
+				emit("both big")
+			}
+			emit("a big")
+		} else {
+			emit("a small")
+			if b > 5 {
+				emit("b big")
+			}
+		}
+		if b > 9 {
+			emit("tail")
+		}
+	})
+	verifAssert(got == a+b && sameObs(og, ow), "t_unit_ifs: an else belongs to the if at its own column; one-line unit ifs run their statement only")
+	verifCover("end")
+}
